@@ -190,8 +190,8 @@ func runC18(c *core.Ctx) {
 			for _, pair := range [][2]ssa.Value{{b.X, b.Y}, {b.Y, b.X}} {
 				if core.ExprKey(pair[0]) == "len(p2)" {
 					for v := range core.BackwardReach(pair[1]) {
-						if v == ssa.Value(fn.Params[2]) {
-							indep = false
+						if core.ExprKey(v) == "len(p2)" {
+							indep = false // the bound is computed from the received length (the decoded object legitimately depends on the bytes)
 						}
 					}
 				}
